@@ -283,7 +283,7 @@ func encodeJsonLines(ctx context.Context, fp io.Writer, view *View, options opti
 	e := txjson.NewEncoder()
 	e.EscapeType = options.JsonEscape
 	e.LineBreak = options.LineBreak
-	e.PrettyPrint = options.PrettyPrint
+	e.PrettyPrint = false // JSON Lines holds one record per line: a pretty-printed record could not be loaded back
 	e.FloatFormat = jsonFloatFormat(options.ScientificNotation)
 	if options.PrettyPrint && options.Color {
 		e.Palette = palette
